@@ -14,7 +14,9 @@
 (***************************************************************************)
 EXTENDS Integers, Sequences, FiniteSets, Json, IOUtils, TLC
 
-Cases == ndJsonDeserialize(IOEnv.VERIF_TRACE)
+(* parse the trace file once (TLC would otherwise re-evaluate the operator) *)
+ASSUME TLCSet(11, ndJsonDeserialize(IOEnv.VERIF_TRACE))
+Cases == TLCGet(11)
 
 (* the first record of the file lists the names every fresh root          *)
 (* interpreter starts with (builtins and reserved words); their numbers   *)
